@@ -12,6 +12,7 @@ import (
 	"fmt"
 	"os"
 	"sort"
+	"strings"
 	"sync"
 
 	"verifharness/e2e"
@@ -44,12 +45,21 @@ func main() {
 		nB := c.Scale(2, 100)
 		// the three parts run concurrently, each on its own generator forked in a fixed order
 		rA, rB := c.Rng.Fork(), c.Rng.Fork()
+		rC := c.Rng.Fork()
+		nC := c.Scale(2, 40)
+		var shapes map[string][][]e2e.EngStep
 		var wg sync.WaitGroup
 		var all [][]e2e.EngStep
 		var allB [][]e2e.Step
 		wits := append(e2e.EngWitnesses(), e2e.EngOutDirWitnesses()...)
 		witH := make([][]e2e.EngStep, len(wits))
-		wg.Add(2 + len(wits))
+		wg.Add(3 + len(wits))
+		go func() {
+			defer wg.Done()
+			// Part C: the targeted shapes (names through labels, temporary directory after a failed build, filegroups of
+			// directories, tools)
+			shapes = e2e.EngRunShapes(rC, base+"/c", nC, c.Scale(4, 6), 8)
+		}()
 		go func() {
 			defer wg.Done()
 			all = e2e.EngRunHistories(rA, base+"/a", nA, 10, func(i int) e2e.EngOpts {
@@ -102,6 +112,41 @@ func main() {
 			}
 			c.Case(e2e.EngCaseTerm(h), histJSON(1000+wi, h, len(h)-1), e2e.EngKey(h), true)
 			ruleKeys(c, 1000+wi, h)
+		}
+
+		// Part C: targeted shapes; oracle incremental = clean, oracle "a command runs only when something it reads changed",
+		// and (modelled shapes) the replay in the model
+		for ki, kind := range e2e.ShapeKinds {
+			for hi, h := range shapes[kind] {
+				id := 2000 + 100*ki + hi
+				if timedOut(c, h) {
+					continue
+				}
+				changed := 0
+				for k := range h {
+					st := &h[k]
+					c.Hist("edit", st.Edit.Kind)
+					if k > 0 && !strings.HasSuffix(st.Edit.Kind, ":none") {
+						changed++
+					}
+					oracle(c, id, h, k)
+					if k > 0 && st.Exit == 0 && h[k-1].Exit == 0 {
+						c.Oracle()
+						for _, l := range st.Executed {
+							if why := e2e.EngAllowed(&h[k-1], st, l); why == "" {
+								c.Fail("unneeded-rerun-"+kind, fmt.Sprintf("%s ran again after %v although its definition, its source files and the clean outputs of its dependencies and tools are unchanged", l, st.Edit), histJSON(id, h, k))
+							} else {
+								c.Hist("reason", why)
+							}
+						}
+					}
+				}
+				if e2e.ShapeModelled(kind) {
+					c.Case(e2e.EngCaseTerm(h), histJSON(id, h, len(h)-1), e2e.EngKey(h), changed >= 2)
+				} else {
+					c.Eval(histJSON(id, h, len(h)-1), e2e.EngKey(h), changed >= 2)
+				}
+			}
 		}
 
 		for i, hist := range allB {
